@@ -3,8 +3,9 @@
 ID=$1; shift
 cd /verif
 git -C /repo apply /verif/seeded/$ID/patch.diff || exit 2
+trap 'git -C /repo checkout -- .' EXIT INT TERM
 for p in "$@"; do
-  ./check $p --tier quick > /tmp/try_$ID_$p.log 2>&1; rc=$?
+  VERIF_BUDGET_S=${VERIF_BUDGET_S:-900} timeout 1200 ./check $p --tier quick > /tmp/try_$ID_$p.log 2>&1; rc=$?
   echo "== $ID $p exit=$rc"; grep -E "^VIOLATION|^KNOWN" /tmp/try_$ID_$p.log | cut -c1-400
 done
 git -C /repo checkout -- .
